@@ -304,7 +304,7 @@ class CLexer:
             fail("filename before line number in #line", pos)
             return
 
-        m = re.match(_decimal_constant, line[pos:])
+        m = re.match(_digit_sequence, line[pos:])
         if not m:
             fail("invalid #line directive", pos)
             return
@@ -333,7 +333,7 @@ class CLexer:
             skip_ws()
             if pos >= line_len:
                 break
-            m = re.match(_decimal_constant, line[pos:])
+            m = re.match(_digit_sequence, line[pos:])
             if not m:
                 fail("invalid #line directive", pos)
                 return
@@ -469,6 +469,8 @@ _decimal_constant = (
     "(0" + _integer_suffix_opt + ")|([1-9][0-9]*" + _integer_suffix_opt + ")"
 )
 _octal_constant = "0[0-7]*" + _integer_suffix_opt
+# the line number and the flags of a #line directive (C99 6.10.4: digit-sequence)
+_digit_sequence = "[0-9]+"
 _hex_constant = _hex_prefix + _hex_digits + _integer_suffix_opt
 _bin_constant = _bin_prefix + _bin_digits + _integer_suffix_opt
 
